@@ -178,6 +178,24 @@ func campaignC16(p *Parser, req *Request, resp *Response) {
 	if refExhausted {
 		resp.stat("reference_exhausted_budget", 1)
 	}
+	if refExhausted && countKnown && len(req.Carries) == 0 {
+		// the reference itself carries a budget (ref). Is it really needed? The
+		// same call without any MaxExpressions option, under the same step bound:
+		// if that returns having evaluated no more than ref expressions, the
+		// budget was not exhausted and must not have been reported.
+		cu := call
+		cu.Opts.MaxExpr = 0
+		U := p.Solo(&cu, req.Pool, int64(ref+2)*C)
+		resp.Runs++
+		resp.stat("unbounded_runs_for_exhausted_references", 1)
+		if !U.Aborted && !U.Overflow && U.Escaped == "" && U.ExprCnt > 0 && U.ExprCnt <= ref {
+			viol(ref, "budget-reported-early", fmt.Sprintf("the parse without any budget returns after %d expressions, but with MaxExpressions(%d) the budget error was reported", U.ExprCnt, ref), map[string]any{"unbounded_value": U.Value, "unbounded_errors": errMsgs(U)})
+			return
+		}
+		if !U.Aborted && !U.Overflow {
+			resp.stat("unbounded_runs_that_returned", 1)
+		}
+	}
 	if countKnown && !refExhausted && R.ExprCnt > 0 {
 		resp.statMax("max_steps_per_expr", int(R.Steps/int64(R.ExprCnt)))
 	}
